@@ -116,9 +116,6 @@ Proof.
 Qed.
 
 (** ---------- the chain of opening balances *)
-Definition sheet_ref (name : str) (col_letter : Z) (row1 : Z) : payload :=
-  PFormula (61 :: 39 :: name ++ 39 :: 46 :: col_letter :: str_of_Z row1).      (* ='<name>'.<L><row1> *)
-
 Ltac in_tac := cbn [In]; repeat (first [left; reflexivity | right]).
 
 Lemma jp_opening_entries :
@@ -346,4 +343,44 @@ Proof.
         by (apply in_map; exact He2).
       apply AE_year_iff in Hy. destruct Hy as [t [Ht <-]]. apply (Hr (a2, c2)); [right; exact Hac|exact Ht].
     + apply Hyr. exact He1.
+Qed.
+
+(** ---------- what a row shows, per class of transaction (by definition of the writer's model; columns A..I) *)
+Lemma row_cells_in lang exs row a :
+  row_cells row (process lang exs (TIn a)) =
+  let yen := dmul (of_grid (i_crypto_in a)) (of_grid (i_spot a)) in
+  [cw row 0 (PInt (month_of (i_ts a))); cw row 1 (PInt (dom_of (i_ts a))); cw row 2 (PStr (exch_name exs (i_exch a)));
+   cw row 3 (PStr (type_text (i_type a))); cw row 4 (PNum (of_grid (i_crypto_in a))); cw row 5 (PNum yen)]
+  ++ (if ttype_in (i_type a) gen_jp_income_types then [cw row 6 (PNum dzero); cw row 7 (PNum yen)] else [])
+  ++ [cw row 8 (PNum (fee_in_yen (i_crypto_fee a) (i_spot a) (i_fiat_fee a)))].
+Proof. unfold row_cells, process, process_in. cbn [jr_pur_amt jr_sale_amt jr_pur_yen jr_sale_yen jr_donated jr_month jr_day jr_client jr_type jr_fee]. destruct (ttype_in (i_type a) gen_jp_income_types); reflexivity. Qed.
+
+Lemma row_cells_out lang exs row a :
+  row_cells row (process lang exs (TOut a)) =
+  let yen := dmul (of_grid (o_crypto_out_no_fee a)) (of_grid (o_spot a)) in
+  [cw row 0 (PInt (month_of (o_ts a))); cw row 1 (PInt (dom_of (o_ts a))); cw row 2 (PStr (exch_name exs (o_exch a)));
+   cw row 3 (PStr (type_text (o_type a))); cw row 6 (PNum (of_grid (o_crypto_out_with_fee a)));
+   cw row 7 (if ttype_eqb (o_type a) DONATE then donation_text yen else PNum yen);
+   cw row 8 (PNum (fee_in_yen (o_crypto_fee a) (o_spot a) (o_fiat_fee a)))].
+Proof. unfold row_cells, process, process_out. cbn [jr_pur_amt jr_sale_amt jr_pur_yen jr_sale_yen jr_donated jr_month jr_day jr_client jr_type jr_fee]. destruct (ttype_eqb (o_type a) DONATE); reflexivity. Qed.
+
+(** a transfer has a row exactly when something was lost on the way; the row shows the lost amount as sold *)
+Lemma has_row_intra lang exs a : has_row lang exs (TIntra a) = dgtb (of_grid (x_crypto_sent a - x_crypto_received a)) dzero.
+Proof. unfold has_row, process, process_intra, jr_has_row. cbn [jr_pur_amt jr_sale_amt]. destruct (dgtb _ dzero); reflexivity. Qed.
+Lemma has_row_in lang exs a : has_row lang exs (TIn a) = true.
+Proof. reflexivity. Qed.
+Lemma has_row_out lang exs a : has_row lang exs (TOut a) = true.
+Proof. reflexivity. Qed.
+
+Lemma row_cells_intra lang exs row a : has_row lang exs (TIntra a) = true ->
+  row_cells row (process lang exs (TIntra a)) =
+  let fee := of_grid (x_crypto_sent a - x_crypto_received a) in
+  let yen := dmul fee (of_grid (x_spot a)) in
+  [cw row 0 (PInt (month_of (x_ts a))); cw row 1 (PInt (dom_of (x_ts a))); cw row 2 (PStr (gen_jp_transfer lang));
+   cw row 3 (PStr (type_text FEE)); cw row 6 (PNum fee); cw row 7 (if dgtb yen dzero then PNum yen else PEmpty);
+   cw row 8 (PNum dzero)].
+Proof.
+  rewrite has_row_intra. intros H. unfold row_cells, process, process_intra.
+  cbn [jr_pur_amt jr_sale_amt jr_pur_yen jr_sale_yen jr_donated jr_month jr_day jr_client jr_type jr_fee]. rewrite H.
+  destruct (dgtb (dmul _ _) dzero); reflexivity.
 Qed.
